@@ -82,6 +82,51 @@ def run(tier: str, seed: int):
 				fails.append({'source': src[:80], 'what': f'processing failed: {type(e).__qualname__}: {str(e)[:200]}'})
 			if not state['nested_ok']:
 				fails.append({'what': 'nested exec disturbed'})
+		# ---- one long-lived Procedure across several runs: a later run must not depend on earlier ones (a reloaded module at the same path, a run that failed half-way)
+		def structural(node, **event):
+			kids = tuple((k, tuple(v) if isinstance(v, list) else v) for k, v in sorted(event.items()))
+			return (type(node).__name__, node.full_path, node.tokens if not kids else '', kids)
+
+		def fresh_result(ep):
+			q = Procedure[object]()
+			q.on('on_fallback', structural)
+			return q.exec(ep)
+		pairs = [('def f() -> int:\n\treturn 1 + 2\n', 'def g() -> int:\n\treturn 30 * 40 + 50\n'), ('a = [1, 2]\n', 'a = {"k": (3, 4)}\nb = a\n'), (SNIPPETS[1], SNIPPETS[3])]
+		for first, second in pairs:
+			longlived = Procedure[object]()
+			longlived.on('on_fallback', structural)
+			try:
+				ep1 = fx.custom_module(first).entrypoint
+				longlived.exec(ep1)
+				ep2 = fx.custom_module(second).entrypoint  # same module path, reloaded with other source
+				got, want = longlived.exec(ep2), fresh_result(ep2)
+				visited += 1
+				if got != want:
+					fails.append({'history': [first, second], 'what': 'a Procedure that processed an earlier version of the module returns another result for the reloaded module than a fresh Procedure'})
+			except Exception as e:  # noqa: BLE001
+				fails.append({'history': [first, second], 'what': f'second run on a long-lived Procedure failed: {type(e).__qualname__}: {str(e)[:160]}'})
+			# a run that fails in a handler after sibling results were produced, then another run
+			failing = Procedure[object]()
+			state2 = {'armed': True}
+
+			def sometimes(node, **event):
+				if state2['armed'] and type(node).__name__ in ('Integer', 'String') and node.tokens in ('2', '40', '4', '"s"'):
+					raise ValueError('handler failure injected by the monitor')
+				return structural(node, **event)
+			failing.on('on_fallback', sometimes)
+			try:
+				ep = fx.custom_module(second).entrypoint
+				try:
+					failing.exec(ep)
+				except Exception:  # noqa: BLE001 - the injected failure (wrapped by the Procedure)
+					pass
+				state2['armed'] = False
+				got, want = failing.exec(ep), fresh_result(ep)
+				visited += 1
+				if got != want:
+					fails.append({'history': [second + ' (handler fails)', second], 'what': 'a run after a failed run returns another result than a fresh Procedure'})
+			except Exception as e:  # noqa: BLE001
+				fails.append({'history': [second + ' (handler fails)', second], 'what': f'a run after a failed run fails: {type(e).__qualname__}: {str(e)[:160]}'})
 		return visited, len(classes), fails
 	finally:
 		os.chdir(cwd)
